@@ -24,6 +24,21 @@ func (e *FnEnc) modTargets(c *FuncContract, env *specEnv) (ts []modTarget, all b
 		if m.All {
 			return nil, true
 		}
+		if m.AnyType != "" {
+			t := env.resolveType(m.AnyType)
+			st, ok := t.Underlying().(*types.Struct)
+			if !ok {
+				sfail("modifies %s: not a struct type", m.Src)
+			}
+			idx, path := findField(st, m.AnyField)
+			if idx < 0 || len(path) != 1 || isAggregateElem(st.Field(idx).Type()) {
+				sfail("modifies %s: no scalar field", m.Src)
+			}
+			for _, l := range e.sorter.leaves(st.Field(idx).Type()) {
+				ts = append(ts, modTarget{name: objArrName(typeName(t), "."+m.AnyField+l.suffix), sort: e.arrSort1(l.sort), allow: func(string) string { return "true" }})
+			}
+			continue
+		}
 		ts = append(ts, e.modTargetsOf(m.E, env, m.Src)...)
 	}
 	return ts, false
@@ -532,7 +547,17 @@ func (e *FnEnc) opaqueCall(cc *ssa.CallCommon, args []Val, resT types.Type, name
 			treat = tr
 		}
 	}
+	benign := false
+	if !repo {
+		for _, p := range []string{"log4go.", "log.", "metrics.", "delay_counter.", "module_state2."} {
+			if strings.HasPrefix(name, p) {
+				benign = true
+			}
+		}
+	}
 	switch {
+	case benign:
+		e.note("logging / metrics libraries (log4go, go-lib log, web-monitor metrics) are assumed to write no state of packages under contract; their results are unconstrained")
 	case noEffectCallees[name]:
 		e.note("lock operations are no-ops (sequential semantics)")
 	case treat == "pure":
